@@ -53,14 +53,69 @@ SINGLE = ("hdd_tidd", "hdd_tidd_smooth", "tidd_cdd", "tidd_cdd_smooth")
 
 def add(mech, what, **kw):
     """mechanism = clause:shape:where, except for the one recorded class of documents (single-slope shape whose
-    balance point lies outside the segment box [T_min_seg, T_max_seg]) which is keyed by that class alone."""
+    balance point lies outside the segment box [T_min_seg, T_max_seg]): there the witness is keyed by that class
+    alone, but ONLY when the whole evaluation is reproduced by the recorded defect's own model (explained_by_known);
+    any other deviation on such a document keeps its clause mechanism and is reported."""
     coef, tc = CUR.get("coef"), CUR.get("tc")
-    if coef and coef["model_type"] in SINGLE:
+    if coef and coef["model_type"] in SINGLE and CUR.get("eval") is not None:
         bp = coef["hdd_bp"] if coef["hdd_bp"] is not None else coef["cdd_bp"]
         if bp < tc["T_min_seg"] or bp > tc["T_max_seg"]:
-            kw["clause"] = mech
-            mech = "single-slope-bp-outside-segment-box:" + ("smoothed" if coef["model_type"].endswith("smooth") else "unsmoothed")
+            if "explained" not in CUR:
+                CUR["explained"] = explained_by_known(coef, tc, *CUR["eval"])
+            I.reach("classifier.single_slope_outside_box." + ("explained" if CUR["explained"] else "unexplained"))
+            if CUR["explained"]:
+                kw["clause"] = mech
+                mech = "single-slope-bp-outside-segment-box:" + ("smoothed" if coef["model_type"].endswith("smooth") else "unsmoothed")
+            else:
+                mech = mech + ":not-the-recorded-mechanism"
     VIOL.append(dict(mech=mech, what=what, coef=coef, tc=tc, **kw))
+
+
+# the exponent clip of the smoothing expression (opendsm.common.utils: sqrt(tiny*1e20) .. sqrt(max*1e-20))
+LN_MIN, LN_MAX = 0.5 * math.log(np.finfo(float).tiny * 1e20), 0.5 * math.log(np.finfo(float).max * 1e-20)
+
+
+def explained_by_known(coef, tc, T, y, h, c):
+    """The recorded C11 finding, as an executable model.  True iff the evaluation is what that defect predicts:
+      unsmoothed single slope: the documented curve with the balance point moved onto the nearer segment limit;
+      smoothed single slope with the balance point at/above T_max: every temperature is given to the heating side
+        (heating shape: the smoothed heating expression also above the balance point; cooling shape: flat).
+    Loads: usage minus intercept, on the side of the (moved) balance point the library assigns it to."""
+    mt = coef["model_type"]
+    b0 = float(coef["intercept"])
+    heating = mt.startswith("hdd")
+    bp = float(coef["hdd_bp"] if heating else coef["cdd_bp"])
+    beta = abs(float(coef["hdd_beta"] if heating else coef["cdd_beta"]))
+    if not mt.endswith("smooth"):
+        bpc = min(max(bp, tc["T_min_seg"]), tc["T_max_seg"])
+        if heating:
+            exp = b0 + beta * np.maximum(0.0, bpc - T)
+        else:
+            exp = b0 + beta * np.maximum(0.0, T - bpc)
+        tol = 8 * np.spacing(np.maximum(np.abs(exp), abs(b0) + beta * (abs(bpc) + np.abs(T))))
+    else:
+        if bp < tc["T_max"]:
+            return False
+        k = float(coef["hdd_k"] if heating else coef["cdd_k"])
+        if not heating:
+            exp = np.full_like(T, b0)
+            tol = np.zeros_like(T)
+        else:
+            if k == 0:
+                exp = b0 - beta * (T - bp)
+            else:
+                z = np.clip((T - bp) / k, LN_MIN, LN_MAX)
+                with np.errstate(over="ignore", invalid="ignore"):
+                    exp = np.abs(beta * k) * (np.exp(z) - 1) - beta * (T - bp) + b0
+            tol = 1e-9 * np.maximum(np.abs(exp), abs(b0) + beta * (abs(k) + np.abs(T - bp)))
+        bpc = bp
+    with np.errstate(invalid="ignore"):
+        if not (np.abs(y - exp) <= tol).all():
+            return False
+    load = y - b0
+    eh = np.where(T <= bpc, load, 0.0)
+    ec = np.where(T >= bpc, load, 0.0)
+    return bool(np.array_equal(h, eh) and np.array_equal(c, ec))
 
 
 def ulp_tol(scale, n=4):
@@ -71,6 +126,8 @@ def judge(coef, tc, T, y, h, c):
     """All clauses of the statement on one evaluation (T sorted ascending)."""
     e = F.effective(coef)
     b0, H, C, bh, bc, kh, kc = e["b0"], e["H"], e["C"], e["bh"], e["bc"], e["kh"], e["kc"]
+    CUR["eval"] = (T, y, h, c)
+    CUR.pop("explained", None)
     scale = float(np.max(np.abs(y))) if len(y) else 1.0
     # magnitudes of the intermediates of the smoothed formula |beta*k|(e^z - 1) + beta(T - bp): rounding errors scale with them
     scale = max(scale, abs(b0), bh * kh, bc * kc, 1e-12)
